@@ -217,7 +217,7 @@ func TestEngine(t *testing.T) {
 		return
 	}
 	r := hx.Rand(2)
-	for id := range hx.Cases(1000, 25000) {
+	for id := range hx.Cases(2500, 30000) {
 		runCase(t, tr, id, r, nil)
 	}
 }
